@@ -18,8 +18,16 @@ def showRes : Res → String
 def inArena (n : Nat) (s : Sl) : Bool := s.off + s.len ≤ n
 
 /-- `ov f=<fn> arena=<hex> src=off,len dst=off,len,cap ad=off,len out=<hex: result on separate buffers>` -/
+def b01 (b : Bool) : String := if b then "1" else "0"
+
 def handle1 (line : String) : String :=
   let o := parseOp line
+  -- `alias x=off,len y=off,len` → the two predicates of internal/alias on slices of one array
+  if o.cmd == "alias" then
+    match sl? o "x", sl? o "y" with
+    | some x, some y => s!"any={b01 (anyOverlap x y)} inexact={b01 (inexactOverlap x y)}"
+    | _, _ => "bad-op"
+  else
   if o.cmd != "ov" then "bad-op" else
   match o.get? "f", o.hex? "arena", sl? o "src", dst? o "dst", sl? o "ad", o.hex? "out" with
   | some f, some mem, some src, some dst, some ad, some out =>
